@@ -11,11 +11,11 @@ from props.c17_fam import H, IT, REP, SEQ, fs, families
 F = fractions.Fraction
 PID = 'C17'
 COQ_DIRS = ['common', 'C17']
-TARGETS = ['C17/Props.vo', 'C17/Corr.vo', 'C17/GenEq.vo', 'C17/GenObjEq.vo', 'C17/GenBaseEq.vo', 'C17/GenTrEq.vo']
+TARGETS = ['C17/Props.vo', 'C17/Corr.vo', 'C17/GenEq.vo', 'C17/GenObjEq.vo', 'C17/GenBaseEq.vo', 'C17/GenTrEq.vo', 'C17/ProofsSExpr.vo']
 MODEL_TARGETS = ['C17/Corr.vo']
 PROPS_FILE = 'C17/Props.v'
 PROPS_MODULE = 'QV.C17.Props'
-CORR_IMPORTS = ['QV.C17.Model', 'QV.C17.Spec', 'QV.C17.Scope', 'QV.C17.Corr']
+CORR_IMPORTS = ['QV.C17.Model', 'QV.C17.Spec', 'QV.C17.Scope', 'QV.C17.SExpr', 'QV.C17.Corr']
 CHECK_CORR = 'check_corr'
 CHECK_SPEC = 'check_spec'
 SHARD = 150
@@ -534,6 +534,7 @@ def gen_cases(rng, tier, ctx):
         for d1 in ('1/2', '1', '0'):
             cases.append({'kind': 'dur', 'channels': ['a'], 'n': n, 'dur': ['1', d1], 'a': ['1/4', '1/2']})
     cases.append({'kind': 'dur', 'channels': ['a'], 'n': 4, 'dur': ['2', '-1/4'], 'a': ['0', '0']})
+    cases.extend(gen_sexpr_cases(rng, tier))
     small = enum_small(tier)
     if tier == 'quick':
         # all one-channel nests of depth <= 2 plus a sample of the thorough tier's multi-channel / depth-3 enumeration
@@ -703,6 +704,8 @@ def run_impl(case):
     chans = case['channels']
     if case['kind'] == 'dur':
         return run_impl_dur(case)
+    if case['kind'] == 'sexpr':
+        return run_impl_sexpr(case)
     try:
         with vlib.time_limit(20):
             pt = build_template(case['tree'], {} if case.get('share') else None)
@@ -780,6 +783,93 @@ def run_impl(case):
         return {'crash': '%s: %s' % (type(e).__name__, e)}
 
 
+SX_NAMES = ['i', 'j', 'k', 'ab']
+
+
+def _sx_eval(e, leaf_idx, leaf_num):
+    k = e[0]
+    if k == 'num':
+        return leaf_num(F(e[1]))
+    if k == 'idx':
+        return leaf_idx(e[1])
+    if k == 'neg':
+        return -_sx_eval(e[1], leaf_idx, leaf_num)
+    if k == 'div':
+        return _sx_eval(e[1], leaf_idx, leaf_num) / leaf_num(F(e[2]))
+    a, b = _sx_eval(e[1], leaf_idx, leaf_num), _sx_eval(e[2], leaf_idx, leaf_num)
+    return a + b if k == 'add' else a - b if k == 'sub' else a * b
+
+
+def run_impl_sexpr(case):
+    """python operators on SimpleExpression (qupulse/program/__init__.py) for an expression tree over loop indices, and value(scope)"""
+    from qupulse.program import SimpleExpression
+    env = {n: int(v) for n, v in case['env'].items()}
+    try:
+        r = _sx_eval(case['expr'], lambda n: SimpleExpression(base=0, offsets={n: 1}), lambda q: float(q))
+    except (TypeError, ZeroDivisionError) as e:
+        return {'sx': 'err', 'exc': type(e).__name__}
+    except Exception as e:
+        return {'crash': '%s: %s' % (type(e).__name__, e)}
+    try:
+        if isinstance(r, SimpleExpression):
+            return {'sx': 'exp', 'base': vlib.frac_json(r.base), 'offsets': [[n, vlib.frac_json(c)] for n, c in r.offsets.items()],
+                    'value': vlib.frac_json(r.value(env))}
+        return {'sx': 'num', 'num': vlib.frac_json(r)}
+    except Exception as e:
+        return {'crash': 'SimpleExpression.value: %s: %s' % (type(e).__name__, e)}
+
+
+def g_sx(e):
+    k = e[0]
+    if k == 'num':
+        return '(SXNum %s)' % gQ(F(e[1]))
+    if k == 'idx':
+        return '(SXIdx %s)' % vlib.gnat(SX_NAMES.index(e[1]))
+    if k == 'neg':
+        return '(SXNeg %s)' % g_sx(e[1])
+    if k == 'div':
+        return '(SXDiv %s %s)' % (g_sx(e[1]), gQ(F(e[2])))
+    return '(SX%s %s %s)' % ({'add': 'Add', 'sub': 'Sub', 'mul': 'Mul'}[k], g_sx(e[1]), g_sx(e[2]))
+
+
+def gen_sexpr_cases(rng, tier):
+    """SimpleExpression arithmetic: deterministic operator table (every operator with expression / number on either side, nested,
+    repeated names, a two-letter name) + random affine trees; a few trees the operators must refuse (index * index, x / 0)"""
+    I, J, K, AB = ('idx', 'i'), ('idx', 'j'), ('idx', 'k'), ('idx', 'ab')
+    N = lambda x: ('num', fs(x))
+    det = [I, N('3/2'), ('add', I, N('1/4')), ('add', N('1/4'), I), ('add', I, J), ('add', I, I), ('add', ('add', J, I), ('add', I, K)),
+           ('sub', I, N('1/2')), ('sub', N('1/2'), I), ('sub', I, J), ('sub', I, I), ('sub', ('add', I, J), ('sub', J, K)), ('neg', I),
+           ('neg', ('sub', N(2), ('mul', N('1/2'), J))), ('mul', I, N('3/4')), ('mul', N('-2'), I), ('mul', N(0), I), ('mul', N(2), N(3)),
+           ('mul', ('add', ('mul', N('1/2'), I), ('mul', J, N('1/4'))), N(-4)), ('div', I, '2'), ('div', ('add', I, N(1)), '-4'),
+           ('div', N(3), '8'), ('add', ('mul', N('1/2'), AB), I), ('sub', ('mul', N(2), AB), ('mul', AB, N(2))),
+           ('add', N('1/4'), ('add', ('mul', N('1/2'), I), ('mul', N('-1/4'), J))), ('sub', N('1/4'), ('mul', ('neg', I), N('1/2'))),
+           ('mul', I, J), ('mul', ('add', I, N(1)), ('sub', J, N(1))), ('div', I, '0'), ('div', N(1), '0'), ('mul', ('mul', I, N(2)), I)]
+    envs = [{'i': 3, 'j': -2, 'k': 5, 'ab': 7}, {'i': 0, 'j': 0, 'k': 0, 'ab': 0}, {'i': -1, 'j': 4, 'k': 1, 'ab': -3}]
+    out = [{'kind': 'sexpr', 'channels': [], 'expr': e, 'env': envs[k % 3]} for k, e in enumerate(det)]
+
+    def tree(depth, want_idx):
+        if depth == 0 or rng.random() < 0.2:
+            return rng.choice([I, J, K, AB]) if want_idx else N(rnd_dyadic(rng, -8, 8, 4))
+        op = rng.choice(['add', 'add', 'sub', 'sub', 'neg', 'mul', 'div'])
+        if op == 'neg':
+            return ('neg', tree(depth - 1, want_idx))
+        if op == 'div':
+            return ('div', tree(depth - 1, want_idx), fs(rng.choice([2, -2, 4, F(1, 2), 8, 1])))
+        if op == 'mul':
+            a, b = tree(depth - 1, want_idx), tree(depth - 1, False)
+            return ('mul', a, b) if rng.random() < 0.5 else ('mul', b, a)
+        a, b = tree(depth - 1, want_idx and rng.random() < 0.7), tree(depth - 1, rng.random() < 0.6)
+        return (op, a, b) if rng.random() < 0.5 else (op, b, a)
+    for _ in range(60 if tier == 'quick' else 600):
+        out.append({'kind': 'sexpr', 'channels': [], 'expr': tree(rng.choice([1, 2, 3, 4]), True),
+                    'env': {n: rng.randint(-4, 6) for n in SX_NAMES}})
+    return out
+
+
+def _sx_jsonable(e):
+    return [e[0]] + [_sx_jsonable(x) if isinstance(x, (tuple, list)) else x for x in e[1:]]
+
+
 def run_impl_dur(case):
     """for i in range(n): hold(duration = d0 + d1*i, a = b + c*i).  Reference: the default program of the template.  The
     linspace program is built by driving LinSpaceBuilder directly with a SimpleExpression duration (through the template
@@ -852,7 +942,7 @@ def g_iobs(obs):
 
 
 def fuel_of(case, obs):
-    if case['kind'] == 'dur':
+    if case['kind'] in ('dur', 'sexpr'):
         return 64
     return 64 + 2 * obs.get('steps', 0) + len(obs['dflt']) * (len(case['channels']) + 12) * 2
 
@@ -861,6 +951,16 @@ def to_coq(case, obs):
     if 'crash' in obs or 'hang' in obs:
         return 'CCrash'
     chans = case['channels']
+    if case['kind'] == 'sexpr':
+        env = glist(lambda n: '(%s, %s)' % (vlib.gnat(SX_NAMES.index(n)), '(%d)%%Z' % int(case['env'][n])), sorted(case['env']))
+        if obs['sx'] == 'err':
+            o = 'SOErr'
+        elif obs['sx'] == 'num':
+            o = '(SONum %s)' % gQ(F(obs['num']))
+        else:
+            o = '(SOExp %s %s %s)' % (gQ(F(obs['base'])), glist(lambda nc: '(%s, %s)' % (vlib.gnat(SX_NAMES.index(nc[0])), gQ(F(nc[1]))), obs['offsets']),
+                                     gQ(F(obs['value'])))
+        return '(CSExpr %s %s %s)' % (g_sx(case['expr']), env, o)
     if case['kind'] == 'dur':
         return '(CDur %s %s %s %s)' % (glist(gQ, [F(case['dur'][1])]), g_iobs(obs), g_steps(obs['dflt']), gQ(F(obs['dflt_total'])))
     if case['kind'] == 'run' and _has(case['tree'], lambda x: x['t'] == 'remap'):
@@ -893,7 +993,7 @@ def _has(tree, pred):
 
 
 def nontrivial(case, obs):
-    if case['kind'] == 'dur':
+    if case['kind'] in ('dur', 'sexpr'):
         return True
     for x in walk(case['tree']):
         if x['t'] == 'iter' and len(range(x['start'], x['stop'], x['step'])) >= 2:
@@ -907,6 +1007,8 @@ def histogram_keys(case, obs):
     keys = [case['kind'], 'channels:%d' % len(case['channels'])]
     if case['kind'] == 'dur':
         return keys + ['dur:template_path=%s' % obs.get('template_path'), 'obs:' + obs.get('err', 'hist')]
+    if case['kind'] == 'sexpr':
+        return keys + ['sexpr:' + obs.get('sx', 'crash')]
     if case.get('fam'):
         keys.append('fam:' + case['fam'])
     kinds = {x['t'] for x in walk(case['tree'])}
@@ -979,6 +1081,25 @@ def _py_spec_ok(case, obs):
     the default program; scale cases: with channel k replaced by (v - offset_k) / amplitude_k"""
     if case['kind'] == 'dur' and obs.get('err') == 'ENotImpl':
         return True          # explicit refusal: nothing is played
+    if case['kind'] == 'sexpr':
+        if 'sx' not in obs:
+            return False
+        try:
+            want = _sx_eval(case['expr'], lambda n: F(int(case['env'][n])), lambda q: q)
+        except ZeroDivisionError:
+            return obs['sx'] == 'err'
+        if obs['sx'] == 'err':
+            def idx(e):
+                return e[0] == 'idx' or any(idx(x) for x in e[1:] if isinstance(x, (tuple, list)))
+
+            def affine(e):
+                if e[0] in ('num', 'idx'):
+                    return True
+                if e[0] == 'mul':
+                    return affine(e[1]) and affine(e[2]) and not (idx(e[1]) and idx(e[2]))
+                return all(affine(x) for x in e[1:] if isinstance(x, (tuple, list)))
+            return not affine(case['expr'])
+        return F(obs['value'] if obs['sx'] == 'exp' else obs['num']) == want
     if 'hist' not in obs:
         return False
     if len(obs['hist']) != len(obs['dflt']) or F(obs['total']) != F(obs['dflt_total']):
@@ -1057,7 +1178,7 @@ def shrink(case, obs, ctx):
 
 def _shrink_candidates(case):
     import copy
-    if case['kind'] == 'dur':
+    if case['kind'] in ('dur', 'sexpr'):
         return
     tree = case['tree']
 
